@@ -168,6 +168,45 @@ pub fn run(ctx: &mut Ctx) {
         }
     }
 
+    // --- B3. engagement sizes: a sweep of BLE address lengths moves the encoded SessionTranscript through every length from
+    //     about 200 to 300 bytes, over the 255/256 boundary of the CBOR length head; an independent peer (keys from the wire
+    //     bytes, as in B2) must still share the keys with the device
+    for alen in (0..=100usize).filter(|a| ctx.thorough || a % 3 == 0 || (40..=70).contains(a)) {
+        use hkdf::Hkdf; use sha2::{Digest, Sha256};
+        let drm = isomdl::definitions::device_engagement::DeviceRetrievalMethods::new(isomdl::definitions::DeviceRetrievalMethod::BLE(isomdl::definitions::BleOptions {
+            peripheral_server_mode: Some(isomdl::definitions::device_engagement::PeripheralServerMode { uuid: uuid::Uuid::from_bytes([7; 16]), ble_device_address: Some(vec![0xab; alen].into()) }),
+            central_client_mode: None }));
+        let Ok(init) = device::SessionManagerInit::initialise(docs(), Some(drm), None) else { continue };
+        let (engaged, qr) = init.qr_engagement().unwrap();
+        let eng = base64::decode_config(qr.strip_prefix("mdoc:").unwrap(), base64::URL_SAFE_NO_PAD).unwrap();
+        let eng_v = sess::b64_to_value(&engaged.stringify().unwrap());
+        let scalar: Vec<u8> = sess::vget(&eng_v, "e_device_key").and_then(|v| v.as_array()).unwrap().iter().map(|x| i128::from(x.as_integer().unwrap()) as u8).collect();
+        let dev_pub = p256::SecretKey::from_slice(&scalar).unwrap().public_key();
+        let rsk = p256::SecretKey::random(&mut rng); let rpt = rsk.public_key().to_encoded_point(false);
+        let erk = to_bytes(&Value::Map(vec![(iv(1), iv(2)), (iv(-1), iv(1)), (iv(-2), b(rpt.x().unwrap())), (iv(-3), b(rpt.y().unwrap()))]));
+        let z = p256::ecdh::diffie_hellman(rsk.to_nonzero_scalar(), dev_pub.as_affine());
+        let st_inner = to_bytes(&Value::Array(vec![Value::Tag(24, Box::new(b(&eng))), Value::Tag(24, Box::new(b(&erk))), Value::Null]));
+        let transcript = to_bytes(&Value::Tag(24, Box::new(b(&st_inner))));
+        let salt = Sha256::digest(&transcript);
+        let hk = Hkdf::<Sha256>::new(Some(salt.as_slice()), z.raw_secret_bytes().as_slice());
+        let (mut skr, mut skd) = ([0u8; 32], [0u8; 32]); hk.expand(b"SKReader", &mut skr).unwrap(); hk.expand(b"SKDevice", &mut skd).unwrap();
+        let est = to_bytes(&Value::Map(vec![(Value::Text("eReaderKey".into()), Value::Tag(24, Box::new(b(&erk)))), (Value::Text("data".into()), b(&[1, 2, 3]))]));
+        let case = serde_json::json!({"ble_address_len": alen, "session_transcript_len": st_inner.len(), "msg_hex": hex::encode(&est)});
+        let Ok(se) = cbor::from_slice::<SessionEstablishment>(&est) else { continue };
+        if let Ok((dev, _)) = engaged.process_session_establishment(se, TrustAnchorRegistry::default()) {
+            let (dr, dd) = keys_of(&dev.stringify().unwrap());
+            ctx.emit.line("spec", "spec:transcript-length:device-keys-are-the-wire-keys", format!("spec.eq {dr}{dd} {}{}", hex::encode(skr), hex::encode(skd)), "true".into(), case.clone());
+            let op = format!("kd.session {} {} {null_hex} {}", hex::encode(&eng), hex::encode(&erk), hex::encode(&scalar));
+            ctx.emit.line("spec", "spec:transcript-length:device-keys", format!("spec.eqmodel ok_{dr}_{dd} {op}"), "true".into(), case.clone());
+        }
+        // and the library's reader against the same engagement: its keys against the model's, from the wire bytes
+        if let Ok((rdr, est2, _)) = reader::SessionManager::establish_session(qr.clone(), sess::simple_namespaces(&["family_name"]), TrustAnchorRegistry::default()) {
+            let erk2 = erk_inner(&est2); let (rr, rd) = keys_of(&rdr.stringify().unwrap());
+            let op = format!("kd.session {} {} {null_hex} {}", hex::encode(&eng), hex::encode(&erk2), hex::encode(&scalar));
+            ctx.emit.line("spec", "spec:transcript-length:reader-keys", format!("spec.eqmodel ok_{rr}_{rd} {op}"), "true".into(), case.clone());
+        }
+    }
+
     // --- C. stored handovers other than QR on the device, and derive_session_key on arbitrary transcripts
     let handovers: Vec<(&str, Value)> = vec![("qr", Value::Null), ("nfc-select-only", Value::Array(vec![b(&[1, 2, 3]), Value::Null])), ("nfc-both", Value::Array(vec![b(&[9; 40]), b(&[7; 3])])),
         ("nfc-empty", Value::Array(vec![b(&[]), b(&[])])), ("oid4vp", Value::Array(vec![Value::Text("a".into()), Value::Text("b".into())]))];
@@ -248,6 +287,13 @@ pub fn run(ctx: &mut Ctx) {
         let mut x2 = x.clone(); x2[0] ^= 0x80; keys.push((format!("off-curve-x-bit-{i}"), ec2(1, x2.clone(), b(&y))));
         keys.push((format!("compressed-x-flipped-{i}"), ec2(1, x2, Value::Bool(odd))));
         for crv in [2i128, 3, 8] { keys.push((format!("valid-point-wrong-curve-id-{crv}-{i}"), ec2(crv, x.clone(), b(&y)))); }
+        // over-long coordinates whose TAIL is a genuine coordinate (an encoder going through ASN.1 INTEGER / BigInteger prepends
+        // a sign byte): 33 and 34 bytes, zero and non-zero prefix, on x, on y, on both, and with a compressed y
+        if i < 4 { for (pn, pre) in [("00", vec![0u8]), ("01", vec![1u8]), ("0000", vec![0u8, 0]), ("ff", vec![0xffu8])] {
+            let px: Vec<u8> = pre.iter().cloned().chain(x.iter().cloned()).collect(); let py: Vec<u8> = pre.iter().cloned().chain(y.iter().cloned()).collect();
+            keys.push((format!("prefixed-{pn}-x-{i}"), ec2(1, px.clone(), b(&y)))); keys.push((format!("prefixed-{pn}-y-{i}"), ec2(1, x.clone(), b(&py))));
+            keys.push((format!("prefixed-{pn}-both-{i}"), ec2(1, px.clone(), b(&py)))); keys.push((format!("prefixed-{pn}-x-compressed-{i}"), ec2(1, px, Value::Bool(odd))));
+        } }
         keys.push((format!("negated-{i}"), ec2(1, x.clone(), { // (x, p - y) is on the curve too
             let p = num_p(); let yn = sub_be(&p, &y); b(&yn) })));
     }
